@@ -35,6 +35,8 @@ pub struct OsEvent {
     pub changed: bool,
     /// value of "latest" after a successful compare-and-swap on it
     pub latest_after: Option<Uuid>,
+    /// simulated time (seconds) at which the request took effect
+    pub at_secs: u64,
 }
 
 pub struct OsWorld {
@@ -90,7 +92,8 @@ impl Gate for SimGate {
                 None
             };
             let seq = w.seq;
-            w.events.push(OsEvent { seq, node, op, name: name.to_string(), changed, latest_after });
+            let at_secs = w.now_secs;
+            w.events.push(OsEvent { seq, node, op, name: name.to_string(), changed, latest_after, at_secs });
         })
     }
     fn now(&mut self) -> u64 {
@@ -221,6 +224,10 @@ pub struct ScB {
     /// Uuid::new_v4 (interposed getrandom), so nothing to configure
     #[serde(default)]
     pub atomic: bool,
+    /// scheduler bias: now and then a client that is in the middle of an operation is not
+    /// scheduled for a long stretch while the others run on (a slow or stalled client)
+    #[serde(default)]
+    pub stall: bool,
 }
 
 #[derive(Clone, Debug)]
@@ -492,6 +499,7 @@ pub fn run_b(scv: &Value, want_log: bool) -> RunResult {
     // the chain as it grows (every version that ever became latest, in order)
     let mut full_chain: Vec<Uuid> = Vec::new();
     let mut ev_seen = 0usize;
+    let mut stalled: Option<(usize, u32)> = None;
     loop {
         let runnable: Vec<usize> = (0..n).filter(|i| nodes[*i].is_some()).collect();
         if runnable.is_empty() {
@@ -503,7 +511,22 @@ pub fn run_b(scv: &Value, want_log: bool) -> RunResult {
             break;
         }
         let mid: Vec<usize> = runnable.iter().copied().filter(|i| parked[*i].map(|l| l.starts_with("os.")).unwrap_or(false)).collect();
-        let pick = if sc.atomic && !mid.is_empty() { mid[0] } else { runnable[rng.usize_below(runnable.len())] };
+        let pick = if sc.atomic && !mid.is_empty() {
+            mid[0]
+        } else {
+            // a stalled client is passed over while anybody else can run
+            let awake: Vec<usize> = match stalled {
+                Some((k, left)) if left > 0 && runnable.iter().any(|i| *i != k) => runnable.iter().copied().filter(|i| *i != k).collect(),
+                _ => runnable.clone(),
+            };
+            if let Some((_, left)) = stalled.as_mut() {
+                *left = left.saturating_sub(1);
+                if *left == 0 {
+                    stalled = None;
+                }
+            }
+            awake[rng.usize_below(awake.len())]
+        };
         sched_hash.write_u64(pick as u64);
         with_osw(|o| {
             o.now_secs += 1;
@@ -533,6 +556,10 @@ pub fn run_b(scv: &Value, want_log: bool) -> RunResult {
         match out {
             PollOutcome::Parked(l) => {
                 with_osw(|o| o.mid_action[pick] = l != "act");
+                if sc.stall && !sc.atomic && stalled.is_none() && l.starts_with("os.") && rng.chance(1, 12) {
+                    stalled = Some((pick, 8 + rng.below(40) as u32));
+                    w.borrow_mut().probe("client.stalled_mid_operation");
+                }
                 // a cleanup action has ended when its node parks at the next "act"
                 if was_cleanup && l == "act" {
                     cleanup_ended = true;
@@ -700,6 +727,44 @@ pub fn run_b(scv: &Value, want_log: bool) -> RunResult {
         } else if !bottom.is_nil() || found.len() != full_chain.len() {
             wb.violation("chain.final", "incomplete", format!("without any cleanup the final store holds {} of {} chain versions", found.len(), full_chain.len()));
         }
+        // what cleanup may delete: a committed version only if it is older than the retention age
+        // and a snapshot for it or a later version existed at that moment
+        if sc.check != "C09" {
+            const RETENTION: u64 = 180 * 86400;
+            let mut created: BTreeMap<String, u64> = BTreeMap::new();
+            let mut snaps_now: BTreeSet<Uuid> = BTreeSet::new();
+            for ev in &events {
+                match ev.op {
+                    "put" => {
+                        created.entry(ev.name.clone()).or_insert(ev.at_secs);
+                        if let Some(sv) = ev.name.strip_prefix("s-").and_then(|x| Uuid::try_parse(x).ok()) {
+                            snaps_now.insert(sv);
+                        }
+                    }
+                    "del" => {
+                        if let Some(sv) = ev.name.strip_prefix("s-").and_then(|x| Uuid::try_parse(x).ok()) {
+                            snaps_now.remove(&sv);
+                        }
+                        if let Some((_, c)) = parse_vname(&ev.name) {
+                            if let Some(ci) = pos.get(&c) {
+                                let age = ev.at_secs.saturating_sub(created.get(&ev.name).copied().unwrap_or(ev.at_secs));
+                                let covered = snaps_now.iter().any(|sv| pos.get(sv).map(|si| si >= ci).unwrap_or(false));
+                                if age <= RETENTION {
+                                    wb.violation("cleanup.deleted", "too-young", format!("version {} on the chain was deleted {} days after it was stored (retention is 180 days)", short(&c), age / 86400));
+                                } else if !covered {
+                                    wb.violation("cleanup.deleted", "uncovered", format!("version {} on the chain was deleted although no snapshot for it or a later version existed", short(&c)));
+                                } else {
+                                    wb.probe("cleanup.old_version_deleted");
+                                }
+                            } else {
+                                wb.probe("cleanup.leftover_deleted");
+                            }
+                        }
+                    }
+                    _ => {}
+                }
+            }
+        }
         if full_chain.len() >= 2 {
             wb.probe("chain.len>=2");
         }
@@ -820,7 +885,7 @@ pub fn gen_c09(seed: u64, i: u64, _thorough: bool) -> Value {
             faults.push((rng.usize_below(nodes), rng.usize_below(8), 1 + rng.below(12) as u32, *rng.pick(&[Decision::FailBefore, Decision::FailAfter, Decision::Crash])));
         }
     }
-    serde_json::to_value(ScB { check: "C09".into(), seed: s, nodes, scripts, sched_seed: rng.next_u64(), list_mode: rng.below(2) as u8, max_page: *rng.pick(&[1usize, 2, 3, 1000]), dice: 0, faults, atomic: false }).unwrap()
+    serde_json::to_value(ScB { check: "C09".into(), seed: s, nodes, scripts, sched_seed: rng.next_u64(), list_mode: rng.below(2) as u8, max_page: *rng.pick(&[1usize, 2, 3, 1000]), dice: 0, faults, atomic: false, stall: rng.chance(1, 3) }).unwrap()
 }
 
 pub fn gen_c10(seed: u64, i: u64, _thorough: bool) -> Value {
@@ -862,7 +927,7 @@ pub fn gen_c10(seed: u64, i: u64, _thorough: bool) -> Value {
             }
         }
     }
-    serde_json::to_value(ScB { check: "C10".into(), seed: s, nodes, scripts, sched_seed: rng.next_u64(), list_mode: rng.below(2) as u8, max_page: *rng.pick(&[1usize, 2, 3, 1000]), dice: rng.below(2) as u8, faults, atomic: rng.chance(1, 4) }).unwrap()
+    serde_json::to_value(ScB { check: "C10".into(), seed: s, nodes, scripts, sched_seed: rng.next_u64(), list_mode: rng.below(2) as u8, max_page: *rng.pick(&[1usize, 2, 3, 1000]), dice: rng.below(2) as u8, faults, atomic: rng.chance(1, 4), stall: rng.chance(1, 2) }).unwrap()
 }
 
 pub fn shrink_b(scv: &Value) -> Vec<Value> {
@@ -925,6 +990,11 @@ pub fn shrink_b(scv: &Value) -> Vec<Value> {
     if !sc.atomic {
         let mut c = sc.clone();
         c.atomic = true;
+        out.push(c);
+    }
+    if sc.stall {
+        let mut c = sc.clone();
+        c.stall = false;
         out.push(c);
     }
     out.into_iter().map(|s| serde_json::to_value(s).unwrap()).collect()
